@@ -15,3 +15,5 @@ pub mod transcript;
 
 pub mod dev;
 pub mod utils;
+#[cfg(feature = "verif-hooks")]
+pub mod verif_hooks;
